@@ -291,15 +291,36 @@ Definition show_out (o : outcome) : string :=
   match o with Loaded => "Loaded" | Propagates => "Propagates" | Fails e => "Fails:" ++ show_rec e end.
 Definition show_lcs (t : list N) (n : nat) : string :=
   sjoin "," (map (fun p => let lc := pos_to_linecol t p in show_nat (fst lc) ++ ":" ++ show_nat (snd lc)) (seq 0 n)).
+(* texts are passed as ASCII string literals (fast to parse): ~<decimal>; escapes every other code point *)
+Fixpoint dec_go (s : string) (acc : option N) : list N :=
+  match s with
+  | EmptyString => []
+  | String a r =>
+    let c := Ascii.N_of_ascii a in
+    match acc with
+    | Some v => if N.eqb c 59 then v :: dec_go r None else dec_go r (Some (v * 10 + (c - 48))%N)
+    | None => if N.eqb c 126 then dec_go r (Some 0%N) else c :: dec_go r None
+    end
+  end.
+Definition dec (s : string) : list N := dec_go s None.
 Definition mk (n : option (list N)) (t : list N) : src := {| s_name := n; s_text := t |}.
 Definition er (f : option (list N)) (l c n : option nat) : errrec := {| r_file := f; r_line := l; r_col := c; r_nchar := n |}."""
+
+
+def coq_txt(t):
+    """Python str -> Coq term of type list N through the `dec` string encoding."""
+    out = []
+    for c in t:
+        o = ord(c)
+        out.append(c if 32 <= o < 127 and c not in '"~' else "~%d;" % o)
+    return '(dec "%s")' % "".join(out)
 
 
 def coq_fs(world):
     items = []
     for f in world["files"]:
         nm = "None" if world["string"] else "(Some %s)" % core.coq_str(f.name)
-        items.append("mk %s %s" % (nm, core.coq_str(f.seen)))
+        items.append("mk %s %s" % (nm, coq_txt(f.seen)))
     return core.coq_list(items)
 
 
